@@ -173,6 +173,25 @@ def check_case(ctx: Ctx, c: Dict[str, Any], k: int = 0) -> None:
             err = float((got - expv)[ins].abs().max())
             if err > 3e-4 * max(1.0, float(expv.abs().max())):
                 bad("ImageTransformer", f"warped ramp differs from source(W(x)) by {err:.3g} on {int(ins.sum())} inside samples", target=tgt_name, source=src_name)
+            if tgt_name == "own":
+                # the functional-style modules given the transform as a tensor w.r.t. the cube of the (own) target grid: same warp
+                from deepali.modules import AlignImage, TransformImage
+
+                mods = [("TransformImage", TransformImage)] + ([] if nonrigid else [("AlignImage", AlignImage)])
+                for mname, cls in mods:
+                    mod = guarded(mname, lambda: cls(target=tgt, source=src, padding="border"), source=src_name)
+                    if mod is None:
+                        continue
+                    o2 = guarded(mname, lambda: mod(t.tensor(), img), source=src_name)
+                    if o2 is None:
+                        continue
+                    g2_ = o2.reshape(-1).to(torch.float64)
+                    if g2_.shape[0] != expv.shape[0]:
+                        bad(mname, f"output has {g2_.shape[0]} samples, target grid has {expv.shape[0]}", source=src_name)
+                        continue
+                    err = float((g2_ - expv)[ins].abs().max())
+                    if err > 3e-4 * max(1.0, float(expv.abs().max())):
+                        bad(mname, f"warped ramp differs from source(W(x)) by {err:.3g} on {int(ins.sum())} inside samples", source=src_name)
     ctx.count(key=json.dumps([name, parts, c["g"], c["g2"]]), nontrivial=True)
 
 
